@@ -34,6 +34,9 @@ instance : Scalar ZC where
   parse s := (i32FromStr s).map ZC.mk
   print a := intDigits a.v
 
+instance : Cvt ZC ZC := ⟨id, id⟩
+instance : Trig ZC := ⟨fun _ => ⟨0⟩, fun _ => ⟨1⟩, fun _ => ⟨0⟩, fun _ _ => ⟨0⟩, ⟨3⟩⟩
+
 namespace ZC
 
 /-- the values the toy codec represents: the `i32` range. -/
